@@ -572,7 +572,9 @@ def _al(x):
 
 class STimedelta(timedelta):
     def __new__(cls, us, aligned=False):
-        o = timedelta.__new__(cls, 0)
+        # the C-level payload is the largest timedelta: arithmetic that bypasses the shadow (e.g. a real
+        # datetime + this object, executed by datetime.__add__ in C) overflows loudly instead of adding 0
+        o = timedelta.__new__(cls, 999999999)
         o.us = us
         o.aligned = aligned
         return o
